@@ -1632,3 +1632,47 @@ type sout =
 val sql_step : uData -> sqlh -> sop -> sqlh * sout
 
 val sql_run : uData -> sqlh -> sop list -> sqlh * sout list
+
+type wr =
+| PasteOn
+| PasteOff
+| Other
+
+type 'settings term = { t_tio : 'settings; t_out : wr list }
+
+type exit =
+| XLine
+| XEof
+| XInterrupted
+| XInvalidData
+| XHelperError
+| XHelperPanic
+
+val write0 : 'a1 term -> wr list -> 'a1 term
+
+val try_write : 'a1 term -> wr -> bool list -> ('a1 term * bool) * bool list
+
+val enable_raw :
+  ('a1 -> 'a1) -> bool -> 'a1 term -> bool list -> (('a1
+  term * 'a1) * bool) * bool list
+
+val disable_raw :
+  'a1 -> bool -> 'a1 term -> bool list -> ('a1 term * bool) * bool list
+
+type 'settings action =
+| AWrite
+| ASuspend of ('settings -> 'settings)
+
+type outcome0 =
+| OExit of exit
+| OIoError
+
+val run_actions :
+  ('a1 -> 'a1) -> bool -> 'a1 -> bool -> 'a1 action list -> exit -> 'a1 term
+  -> bool list -> ('a1 term * outcome0) * bool list
+
+val read_steps :
+  ('a1 -> 'a1) -> bool -> 'a1 action list -> exit -> 'a1 term -> bool list ->
+  ('a1 term * outcome0) * bool list
+
+val switches : wr list -> bool list
